@@ -91,6 +91,10 @@ def run_session(sess):
                     df = mocker.canonical_demo_data()
                     res = int(hashlib.sha256(frame_bytes(df)).hexdigest()[:7], 16)
                     d, p = 9, 0
+                elif act == 'gmm':
+                    from . import fnwork
+                    res = fnwork.gmm_direct([0, 1, 42][int(v) % 3])
+                    d, p = 8, int(v) % 3
                 elif act == 'tmpok':
                     with autils.tmp_seed(int(v)):
                         np.random.random(3)
